@@ -28,7 +28,7 @@ def run_slices(chk, prefixes, module="c08"):
     tmo = 300 if chk.tier == "quick" else 1800
     specs = []
     for n in names:
-        sl = crate.slices.get("depth_step" if "depth" in n else "gen_slice_arm" if "c16" in n else "trampoline", {})
+        sl = crate.slices.get("depth_step" if "depth" in n else "gen_slice_arm" if "c16" in n else "take_while_loop" if "take_while" in n else "trampoline", {})
         specs.append(dict(name="h::%s::%s" % (module, n), timeout=tmo, info=dict(
             functions_encoded="%s slice (sha256 %s, %s lines)" % (sl.get("source"), sl.get("sha256"), sl.get("lines")), timeout=tmo,
             bounds="symbolic limit, arbitrary parent height (inductive step)" if "depth" in n else "recursion limit <= 3, scripts of <= 5 symbolic steps")))
